@@ -27,6 +27,8 @@ def _shared_variants():
         (R("VAbAc", ab=S, ac=S), True),
         (R("VMany", items=(R("VNonCmp", {"v": 1, "note": "hidden"}, "a"), R("VNonInit", {"v": 2}), R("VRich", {"i": 3, "s": "x", "hidden": "h", "t": (1, 2)}, "xml"))), False),
         (R("VInh", {"v": 2}, "multi", first=R("VReq", {}, "gen", child=R("VLeaf", {"v": 1}, "c")), items=(), one=None, extra=R("VLeaf", {"v": 1}, "c")), False),
+        (R("VMany", items=(R("VNonCmp", {"v": 1, "note": "first"}), R("VNonCmp", {"v": 1, "note": "second"}))), "stale-twin"),
+        (R("VMany", items=(R("VReq", child=R("VReq", child=R("VLeaf", {"v": 1}, "a"))), R("VReq", child=R("VReq", child=R("VLeaf", {"v": 1}, "b"))))), "stale-twin"),
     ]
 
 
@@ -38,8 +40,21 @@ def make_duplicate_harness(cases):
         cno = e.choice(len(cases), "tree")
         recipe, shared = cases[cno]
         twins = e.flag("twins_registered")
-        keep = [build(recipe, {} if shared else None)] if twins else []
-        root = build(recipe, {} if shared else None)
+
+        def construct():
+            if shared == "stale-twin":
+                # two different objects sharing one id inside one tree: the first was detached before
+                # its twin (equal class / origin / comparable content / direct children) was built
+                from models.zoo import VMany
+
+                a = build(dict(recipe[3])["items"][0])
+                a.detach_self()
+                b = build(dict(recipe[3])["items"][1])
+                return VMany(items=(a, b))
+            return build(recipe, {} if shared else None)
+
+        keep = [construct()] if twins else []
+        root = construct()
         detached = e.pick(["registered", "detached", "root-detached-only"], "original_state")
         if detached == "detached":
             root.detach()
@@ -48,6 +63,7 @@ def make_duplicate_harness(cases):
         orig = _all_nodes(recipe, root)
         orig_ids_registered = {n.id for _, n in orig if ASTNode.get_any(n.id) is n}
         orig_objs = {id(n) for _, n in orig}
+        orig_registered_objs = {id(n) for _, n in orig if ASTNode.get_any(n.id) is n}
         before = set(NODE_REGISTRY.keys())
         copy = root.duplicate()
         scenario = {"tree": describe(recipe), "shared_subtree": shared, "twins": twins, "original": detached}
@@ -78,7 +94,7 @@ def make_duplicate_harness(cases):
             seen_new.add(id(c))
         # the original is left as it was
         for _, o in orig:
-            if (ASTNode.get_any(o.id) is o) != (o.id in orig_ids_registered):
+            if (ASTNode.get_any(o.id) is o) != (id(o) in orig_registered_objs):
                 e.fail("duplicate-changed-registration-of-original", scenario=scenario)
         _ = before, keep
         e.distinct((cno, twins, detached))
